@@ -335,7 +335,7 @@ func init() {
 func C17(tier string) {
 	run := core.NewRun("C17", tier)
 	var progs []diffProgram
-	links := gen.AllLinks(nil, []string{"conc"})
+	links := gen.AllLinks(nil, []string{"conc", "guard"})
 	r := core.NewRNG(run.SeedV, "c17-"+tier)
 	nGen := 4
 	if tier == "thorough" {
